@@ -120,6 +120,7 @@ SRC_RAW = {
     "C04": ["SrcRowVocab"],
     "C08": ["SrcObserve", "SrcObs", "SrcObsStep"],
     "C09": ["SrcLayout", "SrcObserve", "SrcObs", "SrcRowVocab"],
+    "C10": ["SrcBound"],
     "C11": ["SrcAct"],
     "C12": ["SrcAct"],
     "C17": ["SrcLoad"],
